@@ -180,8 +180,15 @@ func (s *Scanner) Length() uint {
 		if lex.Type() == lexeme.EndTop {
 			// Found character after the end of the schema and spaces.
 			// Example: char "s" in "{} some text"
-			length = uint(lex.End()) - 1
+			// The schema ends with its last lexeme, which is already accounted for.
 			break
+		}
+
+		if lex.Type() == lexeme.NewLine {
+			// A line break belongs to the schema only if something of the schema
+			// follows it; otherwise a trailing `# comment` would be counted when
+			// more text follows on the next line and not counted at end of input.
+			continue
 		}
 
 		length = uint(lex.End()) + 1
